@@ -72,6 +72,10 @@ def check_consumer(chk: Check, repo: Repo) -> None:
                 return [Outcome(f"HANDOFF({arg})", None)]
             if n == "self.outgoing_queue.join":
                 return [Outcome("JOIN_OUT", None)]
+            if n == "self.xknx.telegrams.empty":
+                return [Outcome("EMPTY:yes", True), Outcome("EMPTY:no", False)]
+            if n == "self.xknx.telegrams.put_nowait":
+                return [Outcome("REQUEUE(" + ("None" if c.args and isinstance(c.args[0], ast.Constant) and c.args[0].value is None else "other") + ")", None)]
             if n == "self.process_telegram_incoming":
                 return [Outcome("IN:ok", None), Outcome("IN:xknx", Raise("XKNXException")), Outcome("IN:comm", Raise("CommunicationError")), Outcome("IN:other", Raise("ValueError"))]
             if n == "self.process_telegram_outgoing":
@@ -93,10 +97,18 @@ def check_consumer(chk: Check, repo: Repo) -> None:
             if tr.count("GET") != 1 or tr[0] != "GET":
                 problems.append("not exactly one get() at the start of the iteration")
             if label == "None":
-                if end != "exit" or done != 1 or "HANDOFF(None)" not in tr or "JOIN_OUT" not in tr:
-                    problems.append("sentinel must stop the limiter, wait for it, mark the sentinel done and end the loop")
-                elif not (tr.index("HANDOFF(None)") < tr.index("JOIN_OUT") < tr.index("DONE")):
-                    problems.append("sentinel order must be hand-off, join, task_done")
+                # the sentinel ends the run only when nothing was queued behind it (by a device or a callback while the
+                # queue was being stopped): those telegrams are processed first - the sentinel goes behind them - else
+                # they are never sent nor marked done and join() hangs after stop() returned
+                late = "EMPTY:no" in tr
+                if done != 1:
+                    problems.append("the sentinel is marked done exactly once")
+                elif "EMPTY:yes" not in tr and not late:
+                    problems.append("the sentinel ends the loop without looking for telegrams queued behind it: they are never processed nor marked done")
+                elif late and (end != "head" or "REQUEUE(None)" not in tr or "HANDOFF(None)" in tr):
+                    problems.append("telegrams behind the sentinel: the sentinel must be queued again behind them and the loop go on (the limiter is not stopped yet)")
+                elif not late and (end != "exit" or "HANDOFF(None)" not in tr or tr.count("JOIN_OUT") < 1 or not (tr.index("HANDOFF(None)") < len(tr) - 1 - tr[::-1].index("JOIN_OUT"))):
+                    problems.append("nothing behind the sentinel: stop the limiter (hand-off of None), wait for it, end the loop")
             else:
                 if end != "head":
                     problems.append(f"consumer loop ends ({end}) on a telegram: later telegrams would never be marked done")
@@ -247,7 +259,17 @@ def check_structure(chk: Check, repo: Repo) -> None:
     cfgs = CFG(sp.node)
     put = [n for n in cfgs.nodes if n.kind == "stmt" and n.ast is not None and any(call_name(c) == "self.xknx.telegrams.put_nowait" and c.args and isinstance(c.args[0], ast.Constant) and c.args[0].value is None for c in calls(n.ast))]
     aw = [n for n in cfgs.nodes if n.kind == "stmt" and n.ast is not None and isinstance(getattr(n.ast, "value", None), ast.Await) and ast.unparse(n.ast.value.value) == "self._consumer_task"]
-    chk.ob("stop-sentinel", sp.site(), len(put) == 1 and len(aw) == 1 and cfgs.dominates(put[0].id, aw[0].id), "stop() queues the None sentinel before awaiting the consumer pair", key="stop-sentinel")
+    smf = cfgs.must_facts()
+    # one sentinel per run: a second, overlapping stop() only waits - its sentinel would stay in the queue (join() never
+    # returns, the consumer of the next start() ends at once)
+    # the flag: an attribute set to True next to the put, where it was known to be False
+    sets = [n for n in cfgs.nodes if n.kind == "stmt" and isinstance(n.ast, ast.Assign) and isinstance(n.ast.targets[0], ast.Attribute) and ast.unparse(n.ast.targets[0].value) == "self" and isinstance(n.ast.value, ast.Constant) and n.ast.value.value is True
+            and (ast.unparse(n.ast.targets[0]), False) in smf[n.id]]
+    flag = sets[0].ast.targets[0].attr if len(sets) == 1 else None
+    resets = [w for w in attr_writes(repo, flag, include_mutators=False) if w.func.qualname == "TelegramQueue.start" and isinstance(w.stmt, ast.Assign) and isinstance(w.stmt.value, ast.Constant) and w.stmt.value.value is False] if flag else []
+    once = len(put) == 1 and flag is not None and (cfgs.dominates(sets[0].id, put[0].id) or (cfgs.dominates(put[0].id, sets[0].id) and (f"self.{flag}", False) in smf[put[0].id])) and bool(resets)
+    chk.ob("stop-sentinel", sp.site(), len(put) == 1 and len(aw) == 1 and cfgs.all_paths_hit(cfgs.entry, [aw[0].id] + [n.id for n in cfgs.nodes if n.kind == "stmt" and isinstance(n.ast, ast.Return)], [cfgs.exit], edge_ok=cfgs.normal_only), "stop() queues the None sentinel and awaits the consumer pair on every path on which a consumer runs", key="stop-sentinel")
+    chk.ob("one-stop-sentinel-per-run", sp.site(), once, f"stop() queues its sentinel under `not self.{flag}`, raises the flag with it, and start() clears it" if once else "every stop() that finds the consumer running queues a sentinel: of two overlapping stop() calls one sentinel stays in the queue - join() never returns and the consumer of the next start() ends at once", key="stop-sentinel|once")
 
 
 def check_restart(chk: Check, repo: Repo) -> None:
@@ -292,7 +314,13 @@ def check_stop(chk: Check, repo: Repo) -> None:
     def at(name: str) -> list[int]:
         return [n.id for n in xcfg.nodes if n.ast is not None and n.kind == "stmt" and any(call_name(c) == name for c in calls(n.ast))]
     iface, queue, join = at("self.knxip_interface.stop"), at("self.telegram_queue.stop"), at("self.join")
-    ok2 = len(iface) == 1 and len(queue) == 1 and len(join) == 1 and xcfg.dominates(join[0], iface[0]) and xcfg.dominates(iface[0], queue[0])
+    after_iface = xcfg.reachable(iface, include_start=False) if iface else set()
+    ok2 = len(iface) == 1 and len(queue) == 1 and len(join) == 1 and xcfg.dominates(iface[0], queue[0]) and join[0] not in after_iface and iface[0] in xcfg.reachable(join, include_start=False)
+    # ... and waits for the queue only if something takes telegrams out of it (start() may have failed before the queue
+    # was started, or this is a second stop())
+    xmf = xcfg.must_facts()
+    guarded = len(join) == 1 and any(v and a in ("self.telegram_queue.running", "self.telegram_queue.running()") for a, v in xmf[join[0]])
+    chk.ob("stop-drains-only-a-running-queue", xs.site(), guarded, "XKNX.stop() waits for the telegrams to be processed only while the telegram queue runs" if guarded else "XKNX.stop() awaits join() unconditionally: with a telegram pending and no consumer running (start() failed before the queue was started, second stop()) it never returns", key="stop|drain-guard")
     chk.ob("producer-stops-before-the-consumer", xs.site(), ok2, "XKNX.stop(): join() (drain), then the interface, then the telegram queue" if ok2 else "XKNX.stop() ends the queue's consumer before the interface that feeds it: a frame received meanwhile lands behind the stop sentinel and is never marked done (a later join()/stop() hangs)", key="stop|order")
 
 
